@@ -286,6 +286,9 @@ def run_case(case):
             else:
                 model.apply(op)
                 got = storeops.apply_backend(b, refs, vals, op, model_before=before)
+            if isinstance(got, tuple) and got and got[0] == "raise" and got[1] == "StaleMementoRead":
+                fail("a memento reads other bytes than those stored when it was created", "op %s: %s" % (op, got[2]), step)
+                break
             if isinstance(got, tuple) and got and got[0] == "raise":
                 fail("storage operation raises " + got[1], "op %s raised %s" % (op, got[2:]), step)
                 break
